@@ -47,7 +47,8 @@ def call_fn(case, seed):
     shape = tuple(case["shape"])
     fn = case["fn"]
     # the seed as a Python int or as a numpy integer scalar (same value)
-    seed = gen.typed_scalar(seed, ["python", "python", "int64", "uint32", "uint64"][(case["shape"][0] + case["shape"][1]) % 5])
+    if seed < 2**32:
+        seed = gen.typed_scalar(seed, ["python", "python", "int64", "uint32", "uint64"][(case["shape"][0] + case["shape"][1]) % 5])
     if fn == "shot_poisson":
         return detector.shot_noise(np.full(shape, case["level"]), method="poisson", seed=seed)
     if fn == "shot_gaussian":
@@ -89,7 +90,9 @@ def seeded(case, ctx):
         # differ pairwise - a seed that is reduced, truncated or partly ignored collides somewhere in the family
         s0 = case["seed"]
         family = [s0, case["seed2"], (s0 + 1) % 2**32, (s0 + 7) % 2**32, (s0 + 14) % 2**32, (s0 + 21) % 2**32,
-                  s0 ^ (1 << 8), s0 ^ (1 << 16), s0 ^ (1 << 31), (2 * s0 + 1) % 2**32]
+                  s0 ^ (1 << 8), s0 ^ (1 << 16), s0 ^ (1 << 31), (2 * s0 + 1) % 2**32,
+                  # seeds wider than 32 / 64 bits (numpy recommends 128-bit seeds): differing only in high bits
+                  s0 + 2**32, s0 + 2**63, s0 + 2**64, s0 + 2**100, s0 ^ (1 << 127)]
         family = list(dict.fromkeys(family))
         frames = {s0: a}
         with lentil_call("C18.seeded", case["fn"] + " (other seeds)"):
